@@ -27,7 +27,7 @@ def _parse_limit(limit, x, logx, reduction):
         autox = True
     else:
         if isinstance(limit, Quantity):
-            limit = limit.to(x.unit.units).magnitude
+            limit = limit.to(x.unit).magnitude
         if logx:
             limit = np.log10(limit)
     return limit, autox
